@@ -671,15 +671,72 @@ impl Driver {
         crate::types::disarm_fault();
         if res.is_err() {
             if self.injected_fault(armed) {
-                // the caller's own callback panicked. If nothing at all changed, the operation did
-                // not happen and every monitor goes on; otherwise its outcome is unknown.
+                // The caller's own callback panicked. If nothing at all changed, the operation did
+                // not happen. Otherwise the snapshot tells what it left behind, and the ground truth
+                // follows the physical outcome: an insert whose value is in the map happened, one whose
+                // value is not did not (whatever else it touched: if it re-stamped or re-weighed the old
+                // entry on its way, the old value is judged under its old deadlines and weights, and
+                // that is where a half-done operation shows); an invalidation removed what is gone.
+                // Every state-based monitor goes on from the implementation's own post-state.
                 let post = self.cut.as_ref().unwrap().snapshot();
                 if post == pre && self.cut.as_ref().unwrap().sketch().table() == pre_sketch.table() {
                     self.result.stats.inc("faults_fired_without_any_effect");
                 } else {
                     self.result.stats.inc("faults_fired_after_partial_effect");
-                    self.fault_to_truth(&op, now);
-                    self.faulted = true;
+                    let mut truth_after = self.truth.clone();
+                    match op {
+                        Op::Insert { k, vid, w } => {
+                            if post.entry(k).map(|e| e.vid == vid).unwrap_or(false) {
+                                let ew = self.eff_weight(w);
+                                truth_after.on_insert(k, vid, ew, now);
+                                self.result.stats.inc("faulted_inserts_that_took_effect");
+                            }
+                        }
+                        Op::Get { k } => {
+                            // the read may have been recorded before the callback ran
+                            if is_sync && post.rlen > pre.rlen {
+                                truth_after.make_uncertain(k, now, true);
+                                let h = self.cut.as_ref().unwrap().hash(k);
+                                self.pending_reads.push(h);
+                            } else if !is_sync {
+                                truth_after.make_uncertain(k, now, true);
+                            }
+                        }
+                        Op::Invalidate { k } => {
+                            if pre.entry(k).is_some() && post.entry(k).is_none() {
+                                self.invalidations += 1;
+                                truth_after.on_invalidate(k);
+                            }
+                        }
+                        Op::InvalidateIf { p } => {
+                            // what matched and is gone was invalidated; nothing else may be missing
+                            self.invalidations += 1;
+                            let gone: Vec<u32> = pre.entries.iter().filter(|e| p.eval(e.key, e.vid, e.weight) && post.entry(e.key).is_none()).map(|e| e.key).collect();
+                            for k in gone {
+                                if truth_after.cur(k).map(|l| p.eval(k, l.vid, l.weight)).unwrap_or(false) {
+                                    if let Some(kt) = truth_after.keys.get_mut(&k) {
+                                        kt.cur = None;
+                                        kt.alt = None;
+                                        kt.dead = DeadReason::InvalidatedByPred;
+                                    }
+                                }
+                            }
+                        }
+                        _ => {}
+                    }
+                    let post_quiescent = !is_sync || (post.rlen == 0 && post.wlen == 0);
+                    let now_after = self.now();
+                    if !is_sync || !exact {
+                        self.check_transition_weak(&op, &pre, &post, &truth_after, now_after);
+                    }
+                    self.truth = truth_after;
+                    self.batch_valid = false;
+                    if post_quiescent {
+                        self.check_quiescent(&op, &pre, &post, now_after, false);
+                        self.pending_new_weight = 0;
+                        self.ws_at_quiescence = post.weighted_size.max(post.held_weight());
+                    }
+                    self.last_sync_quiescent = post_quiescent;
                 }
                 self.op_index += 1;
                 return;
